@@ -119,6 +119,12 @@ func main() {
 		// two remote instances whose snapshots wait in the receiver together: one loop iteration merges several snapshots
 		parts = append(parts, part{"loop-" + name + "-two-remotes", loopworld.Cfg{Native: native, Remote2: true, TwoRemotes: true, Straddle: r.Thorough(), LoopFirst: r.Thorough(), MaxVisits: 2}})
 	}
+	for _, native := range []bool{true, false} {
+		name := map[bool]string{true: "native", false: "shadow"}[native]
+		// a whole upload fails (storage_retry_count exhausted): Sync must give up with an error (the process is restarted
+		// by its supervisor), it must not carry on as if the snapshot had been stored
+		parts = append(parts, part{"loop-" + name + "-store-outage", loopworld.Cfg{Native: native, RetryCount: 1, StoreFaults: 1, MaxVisits: 1, AppOps: []string{"put-b", "del-a"}}})
+	}
 	for i, p := range parts {
 		restore := r.SubBudget(r.Remaining() / time.Duration(len(parts)-i))
 		xrun.Explore(r, p.name, xrun.Opts{Kind: "x", Bound: bound, Budget: 30, Recycle: 4, Param: p.cfg})
